@@ -120,9 +120,9 @@ def skeleton(shape):
             st += [R(p)] * 2
         out.append(st)
     allp = [R(q) for q in range(1, n + 1)]
-    for f in FIELDS:
-        for p in range(1, n + 1):
-            out.append(allp + [F(shape[p - 1], f)] + [R(p)] * 2)
+    for i, f in enumerate(FIELDS):
+        p = 1 + (i % n)
+        out.append(allp + [F(shape[p - 1], f)] + [R(p)] * 2)
     for i, f in enumerate(FIELDS):
         for k in ("l", "a"):
             p = 1 + (i % n)            # the pod whose group gets the foreign update
@@ -329,7 +329,7 @@ def run(ctx):
     ctx.cov["schedule_graph_transitions"] = total_edges
     trace = os.path.join(ctx.scratch, "trace.ndjson")
     args = ["-schedules", sched_path, "-out", trace, "-seed", str(ctx.seed)]
-    args += ["-cap", "8", "-random", "2", "-rlen", "8"] if ctx.quick else ["-cap", "120", "-random", "15", "-rlen", "10"]
+    args += ["-cap", "6", "-random", "1", "-rlen", "8"] if ctx.quick else ["-cap", "120", "-random", "15", "-rlen", "10"]
     p = vlib.run_harness(binary, args, timeout=3000)
     out = json.loads(p.stdout.strip().splitlines()[-1])
     ctx.stage("real-run", **out)
